@@ -268,6 +268,7 @@ func (s *Map[K, V]) Store(key K, value V) {
 		verifYield(3)
 		nn.flags.SetTrue(fullyLinked)
 		unlock(preds, highestLocked)
+		verifYield(7)
 		atomic.AddInt64(&s.length, 1)
 		return
 	}
@@ -373,6 +374,7 @@ func (s *Map[K, V]) LoadAndDelete(key K) (value V, loaded bool) {
 			}
 			nodeToDelete.mu.Unlock()
 			unlock(preds, highestLocked)
+			verifYield(8)
 			atomic.AddInt64(&s.length, -1)
 			return nodeToDelete.loadVal(), true
 		}
@@ -450,6 +452,7 @@ func (s *Map[K, V]) LoadOrStore(key K, value V) (actual V, loaded bool) {
 		verifYield(3)
 		nn.flags.SetTrue(fullyLinked)
 		unlock(preds, highestLocked)
+		verifYield(7)
 		atomic.AddInt64(&s.length, 1)
 		return value, false
 	}
@@ -525,6 +528,7 @@ func (s *Map[K, V]) LoadOrStoreLazy(key K, f func() V) (actual V, loaded bool) {
 		verifYield(3)
 		nn.flags.SetTrue(fullyLinked)
 		unlock(preds, highestLocked)
+		verifYield(7)
 		atomic.AddInt64(&s.length, 1)
 		return value, false
 	}
@@ -587,6 +591,7 @@ func (s *Map[K, V]) Delete(key K) bool {
 			}
 			nodeToDelete.mu.Unlock()
 			unlock(preds, highestLocked)
+			verifYield(8)
 			atomic.AddInt64(&s.length, -1)
 			return true
 		}
